@@ -11,8 +11,8 @@ RULE = ("C03-style workloads (random/swept cuts, reordering+duplicating real ser
         "received messages unread (never / at most k get_message calls) so a backlog exists at close. Non-trivial = a verifier "
         "was seen and the wormhole closed with extra gets issued; distinct = decision traces.")
 ASSUMPTIONS = ["Deferred callbacks fire in the order the eventual queue was fed, so firing order = event order"]
-FLOORS = {"quick": {"extra_gets": 2000, "gets_after_close": 300, "closed": 600, "order_preserving_cases": 100, "unread_backlog_at_close": 40, "delegate_callbacks_raised": 40},
-          "thorough": {"extra_gets": 40000, "gets_after_close": 6000, "closed": 10000, "order_preserving_cases": 2000, "unread_backlog_at_close": 2500, "delegate_callbacks_raised": 1500}}
+FLOORS = {"quick": {"extra_gets": 2000, "gets_after_close": 300, "closed": 600, "order_preserving_cases": 100, "unread_backlog_at_close": 40, "delegate_callbacks_raised": 40, "long_sessions_with_late_drops": 8},
+          "thorough": {"extra_gets": 40000, "gets_after_close": 6000, "closed": 10000, "order_preserving_cases": 2000, "unread_backlog_at_close": 2500, "delegate_callbacks_raised": 1500, "long_sessions_with_late_drops": 250}}
 ORDER = {"code": 0, "key": 1, "verifier": 2, "versions": 3, "msg": 3, "closed": 4}
 GETS = ["welcome", "code", "unverified_key", "verifier", "versions", "message"]
 
@@ -38,6 +38,13 @@ def cases(tier, seed, prep=None):
         out.append({"kind": "random", "seed": seed * 1000003 + 760000 + i, "server": ("plain" if i % 3 == 0 else "reorder"),
                     "mismatch": False, "ndrops": [0, 0, 1], "cfg_over": {"api_" + who: "delegate"}, "min_msgs": 3,
                     "app_bug": [who.upper(), ["msg", "msg", "versions", "verifier"][i % 4], 1 + (i // 4) % 3]})
+    # long conversations (70-100 messages each way, delegate API on at least one side) with the connection losses late
+    # in the session: whatever the client remembers about what it has already processed must still hold then
+    for i in range(16 if tier == "quick" else 500):
+        who = "ab"[i % 2]
+        out.append({"kind": "random", "seed": seed * 1000003 + 770000 + i, "server": ("plain" if i % 3 == 0 else "reorder"),
+                    "mismatch": False, "ndrops": [1, 2, 3], "drop_kinds": ["cut", "cut", "server-close"], "cfg_over": {"api_" + who: "delegate"},
+                    "min_msgs": 70, "max_msgs": 100, "max_size": 6, "late_drops": True})
     bases = range(2) if tier == "quick" else range(16)
     for b in bases:
         for who in "AB":
@@ -48,7 +55,7 @@ def cases(tier, seed, prep=None):
 
 
 def run_case(spec):
-    world, drv, sch, cfg = build_case(spec, max_msgs=6, max_size=100,
+    world, drv, sch, cfg = build_case(spec, max_msgs=spec.get("max_msgs", 6), max_size=spec.get("max_size", 100),
                                       adversary=(spec["server"] == "reorder"))
     rng = world.work_rng
     if spec.get("mismatch"):
@@ -92,8 +99,13 @@ def run_case(spec):
         rd = drv.app("B" if spec["unread"] == "A" else "A")     # the side that does read everything
         nr = drv.app(spec["unread"])
         done = lambda: drv.all_sent() and rd.msgs == nr.sent
-    end = sch.run(1200, until=done)
-    sch.drain(120.0, 5000, until=done)
+    if spec.get("late_drops"):
+        sch.faults = [(k + 500 + 200 * i, fn, lab) for i, (k, fn, lab) in enumerate(sch.faults)]
+        end = sch.run(8000, until=lambda: done() and not sch.faults)
+        sch.drain(120.0, 120000, until=done)
+    else:
+        end = sch.run(1200, until=done)
+        sch.drain(120.0, 5000, until=done)
     backlog = 0
     if spec.get("unread"):
         sch.drain(20.0, 600)
@@ -203,6 +215,7 @@ def run_case(spec):
         "counters": dict(counters, closed=int(drv.a.closed) + int(drv.b.closed), drops=drv.drops_done,
                          order_preserving_cases=int(spec["server"] == "plain"),
                          mismatch_cases=int(bool(spec.get("mismatch"))),
+                         long_sessions_with_late_drops=int(bool(spec.get("late_drops")) and drv.drops_done > 0 and len(drv.a.msgs) + len(drv.b.msgs) >= 130),
                          unread_backlog_at_close=backlog, delegate_callbacks_raised=(getattr(drv.a, "raised", 0) + getattr(drv.b, "raised", 0)), delegate_sides=int(drv.a.api == "delegate") + int(drv.b.api == "delegate"),
                          notrans_seen=len(MON.notrans), log_errors_seen=len(MON.errors)),
         "sets": {"event_sequences": [" ".join(k for k in drv.a.kinds() if k in ORDER)]},
